@@ -11,6 +11,9 @@ Line protocol of the C14 correspondence stream (`umh_nodes`):
   every other tagged local range gets a task in `PreCheck`, tasks of vanished ranges are dropped)
   `<nodes>` = `addr=SR/SR…;addr=…`, `SR` = `<N|M|I>:<s-e,s-e…>[@<epoch>~<src proxy>~<src node>~<dst proxy>~<dst node>]`
   (tag kind + range list as installed + the `MigrationMeta` of the tag: it is part of the task key)
+* `switch <PRECHECK|PRESWITCH|FINALSWITCH> <cluster|-> <SR>` → `UMCTL <sub>` as a source proxy sends it (any meta):
+  `OK` / `E:TASK_NOT_FOUND` / `E:NOT_READY_FOR_SWITCHING` / `E:Invalid_Arg` / `E:Peer_Not_Migrating`
+* `tick <ms>` → virtual time passes, no switch step is acknowledged: `ok`, nothing changes
 * `tasks` → the phase of every task of the model's task map, canonical (what `UMCTL INFO` lists)
 * `states <rangelist>=<State>;…|-` → the harness moved tasks to these phases through the real handshake
   (read back from `UMCTL INFO`); the model's tasks take them over; `TASKS-MISMATCH` if the task sets differ
@@ -146,6 +149,23 @@ def step (st : St) (toks : List String) : St × String :=
       let cfg : RouteCfg := { activeRedirection := a == "1" }
       ({ cfg := cfg, ver := if v == "1" then .v1 else .v2, h := Hist.init cfg m (hostOfAddr m) }, "ok")
     | _, _, _ => (st, "bad-op")
+  | ["install", name, epoch, l, p, _mmt] => step st ["install", name, epoch, l, p]
+  | ["switch", sub, cluster, sr] =>
+    let sub' : Option Um.E2E.MgrSub :=
+      if sub == "PRECHECK" then some .preCheck else if sub == "PRESWITCH" then some .preSwitch
+      else if sub == "FINALSWITCH" then some .finalSwitch else none
+    match sub', parseSR sr with
+    | some sb, some r =>
+      let (h', rep) := st.h.switch ⟨if cluster == "-" then "" else cluster, r⟩ sb
+      ({ st with h := h' },
+        match rep with
+        | .ok => "OK"
+        | .invalidArg => "E:Invalid_Arg"
+        | .notReady => "E:NOT_READY_FOR_SWITCHING"
+        | .taskNotFound => "E:TASK_NOT_FOUND"
+        | .peerMigrating => "E:Peer_Not_Migrating")
+    | _, _ => (st, "bad-op")
+  | ["tick", _ms] => (st, "ok")
   | ["install", name, epoch, l, p] =>
     match epoch.toNat?, parseNodeSlots l, parseNodeSlots p with
     | some e, some loc, some peer =>
